@@ -8,15 +8,18 @@ URLs requested, and lint's missing_licenses after `download --all`.
 """
 from __future__ import annotations
 
+import contextlib
+import errno
 import itertools
 import json
 import os
+import resource
 import time
 
 from .. import gitrepo
 from ..cli import run_cli
 from ..core import HarnessError, R, explore, finish, fresh_dir
-from ..envctl import stub_net, virtual_pool
+from ..envctl import FaultPlan, faulty_open, stub_net, virtual_pool
 from ..fstree import materialise, read_tree
 
 ID = "C19"
@@ -73,13 +76,17 @@ def cases(tier, seed):
                 yield {"k": "loc", "req": req, "cwd": cwd, "vcs": vcs, "state": state, "rootopt": rootopt, "fail": None, "rootname": "LICENSES"}
     for variant in ("output-new", "output-existing", "output-two-ids", "source-file", "source-dir", "source-missing", "source-dir-missing-file",
                     "source-existing-target", "source-existing-output", "source-dir-existing-output", "licenseref-existing-output", "all", "all-with-failure", "all-nothing-missing", "all-plus-id", "no-arguments",
-                    "non-ascii-identifier", "all-with-non-ascii-identifier", "other-extension-present", "text-in-subdirectory-present"):
+                    "non-ascii-identifier", "all-with-non-ascii-identifier", "other-extension-present", "text-in-subdirectory-present", *LOCAL_FAILURES):
         for fail in (None, "http500"):
             yield {"k": "opt", "variant": variant, "fail": fail}
     cmds = [["MIT"], ["MIT+"], ["GPL-2.0+"], ["LicenseRef-x.1"], ["MIT", "Classpath-exception-2.0"], ["--all"]]
     for a, b in itertools.product(range(len(cmds)), repeat=2):
         for fail_first in (None, "reset"):
             yield {"k": "hist", "a": cmds[a], "b": cmds[b], "fail_first": fail_first}
+
+
+# the transfer works, the local file system does not: a failure like any other - reported in the exit status, no debris, the rest of the batch goes on
+LOCAL_FAILURES = ("output-under-file", "licenses-is-file", "target-is-directory", "source-entry-is-directory", "disk-full", "open-fails")
 
 
 def base_tree(state, req_ids):
@@ -291,6 +298,35 @@ def ev_opt(c) -> R:
     elif v == "no-arguments":
         argv = ["download"]
         fail = None
+    elif v == "output-under-file":
+        rec["notes.txt"] = "keep\n"
+        argv = ["download", "-o", str(root / "notes.txt" / "third-party" / "MIT.txt"), "MIT"]
+        fail, req_net = True, ["MIT"]
+    elif v == "licenses-is-file":
+        rec["LICENSES"] = "not a directory\n"
+        argv = ["download", "MIT", "0BSD"]
+        fail, req_net = True, ["MIT", "0BSD"]
+    elif v == "target-is-directory":
+        rec["LICENSES/MIT.txt/README"] = "a directory of that name\n"
+        argv = ["download", "MIT", "0BSD"]
+        expect_new = {"LICENSES/0BSD.txt": b"text of 0BSD\n"}
+        fail, req_net = True, ["MIT", "0BSD"]
+    elif v == "source-entry-is-directory":
+        materialise(base / "srcs2", {"LicenseRef-x.1.txt/README": "a directory of that name\n"})
+        argv = ["download", "--source", str(base / "srcs2"), "LicenseRef-x.1", "0BSD"]
+        expect_new = {"LICENSES/0BSD.txt": b"text of 0BSD\n"}
+        fail, req_net = True, ["0BSD"]
+    elif v == "disk-full":
+        # (every write beyond the fifth byte of a file fails: RLIMIT_FSIZE for the time of the command)
+        argv = ["download", "MIT", "0BSD"]
+        fail, req_net = True, ["MIT", "0BSD"]
+    elif v == "open-fails":
+        argv = ["download", "MIT", "0BSD"]
+        expect_new = {"LICENSES/0BSD.txt": b"text of 0BSD\n"}
+        fail, req_net = True, ["MIT", "0BSD"]
+    if c["fail"] and v in LOCAL_FAILURES:
+        r.outcome, r.nontrivial = "n/a", False
+        return r
     if c["fail"] and req_net:
         assign = dict(assign)
         assign[req_net[0]] = c["fail"]
@@ -301,7 +337,15 @@ def ev_opt(c) -> R:
         return r
     materialise(root, rec)
     before = read_tree(root)
-    with stub_net(outcome_fn(assign)) as urls, virtual_pool({"chunksize": 1000}):
+    with contextlib.ExitStack() as stack:
+        urls = stack.enter_context(stub_net(outcome_fn(assign)))
+        stack.enter_context(virtual_pool({"chunksize": 1000}))
+        if v == "open-fails":
+            stack.enter_context(faulty_open(FaultPlan(lambda p: p.endswith("/LICENSES/MIT.txt"), err=errno.ENOSPC, modes="w")))
+        if v == "disk-full":
+            soft, hard = resource.getrlimit(resource.RLIMIT_FSIZE)
+            resource.setrlimit(resource.RLIMIT_FSIZE, (5, hard))
+            stack.callback(resource.setrlimit, resource.RLIMIT_FSIZE, (soft, hard))
         out = run_cli(["--root", str(root), *argv], cwd=str(root))
     after = read_tree(root)
     label = f"{' '.join(a if not a.startswith(str(base)) else os.path.relpath(a, base) for a in argv)} (network {assign or 'ok'})"
